@@ -282,7 +282,8 @@ SLeafEq(src, a, b) ==
 SMatEq(src, i, j) ==
     \/ i = j
     \/ /\ i # 0 /\ j # 0 /\ Len(src.mats[i].leaves) = Len(src.mats[j].leaves)
-       /\ src.mats[i].extorder = src.mats[j].extorder      \* Go values: the extension SLICES are equal
+       /\ src.mats[i].extorder = src.mats[j].extorder      \* Go values: the extension SLICES are equal,
+       /\ src.mats[i].shape = src.mats[j].shape            \* the same optional members are nil
        /\ \A k \in DOMAIN src.mats[i].leaves : SLeafEq(src, src.mats[i].leaves[k], src.mats[j].leaves[k])
 
 SourcesExact(src) == \A m \in Ran(src.mats) : \A lf \in Ran(m.leaves) : lf.k = 0 => lf.x
